@@ -345,11 +345,16 @@ func genC17(tier, out string, sum *Summary) {
 					ps = append(ps, filt(x, cd, r))
 				}
 				ps = append(ps, slc(x, ip(0), nil, nil, r), slc(x, nil, nil, ip(-1), r))
+				// documents in which the first selected element lacks what the right-hand side asks for
+				target := []int{11, len(sdocs) - 2, len(sdocs) - 1}
 				for _, p := range ps {
 					for _, i := range []int64{0, 1, -1} {
-						for q := 0; q < 2; q++ {
+						for q := 0; q < 4; q++ {
 							k++
 							doc := sdocs[(k*3+q*11)%len(sdocs)]
+							if q > 0 {
+								doc = sdocs[target[q-1]]
+							}
 							if p.PK == PSlice && typeOf(x, doc) == "string" {
 								continue
 							}
